@@ -32,16 +32,26 @@
             byte 0 in every PDU (`self.did is not None`); the target holds did=None and its DID
             filter ignores everything.  Variant "did0": the target treats DID 0 as "no DID".
      "ipni0"/"tpni0"  re-activation of the same objects, see Reactivate (target side: open finding)
+     "freshI"/"freshT"  every attribute the Initiator / Target object keeps is assigned by activate() from the
+            parameters of THIS activation (as is: yes).  Without it the optional attributes (DID, NAD, general
+            bytes) are assigned only when the new session has them, so what the previous session of the same
+            object left behind survives ("if atr_req.did > 0: self.did = ..."); see Established, invariant SessAttr
    The defective branches of "ack", "atn" and "miu" CAN NOW GO (the fixes are in /repo); they
    are kept only so that a regression is reported by OneFaultOk / MiuOk / FrameFits under the
    canonical key of the original finding instead of a bare conformance mismatch.
 *)
 EXTENDS Naturals, Sequences, SequencesExt, FiniteSets, TLC
 
-CONSTANTS Cfgs,           \* configurations [lrI, lrT, did, tdid, did0, nad, sb, miuI, miuT, R] to explore
+CONSTANTS Cfgs,           \* session configurations to explore: what the two objects HOLD after activate()
+                          \*   [lrI, lrT, did, tdid, did0, nad, sb, miuI, miuT, R, tR, gbI, gbT] plus
+                          \*   e: what this activation ESTABLISHED (parameters of activate() and the ATR/PSL frames), same
+                          \*      fields without the MIUs;  prev: the optional attributes of the previous session
                           \*   sb: 106A framing (start byte F0h in front of the length byte)
                           \*   did: the initiator sends a DID byte; tdid: the target holds a DID (ATR DID > 0);
-                          \*   did0: the DID value is 0 (did /\ ~tdid)
+                          \*   did0: the DID value is 0 (did /\ ~tdid);  nad: the initiator sends a NAD byte
+                          \*   R / tR: response waiting time the initiator / the target holds (ticks)
+                          \*   gbI / gbT: general bytes the target got from the initiator / the initiator from the target
+                          \*              (0: none, otherwise a token for the content)
           Lens,           \* payload lengths (bytes) the applications choose from
           Ds,             \* exchange() timeouts in ticks the initiator application chooses from
           MaxEx,          \* exchanges per conversation                     (model checking bound)
@@ -52,7 +62,7 @@ CONSTANTS Cfgs,           \* configurations [lrI, lrT, did, tdid, did0, nad, sb,
           WithTrunc,      \* explore frames truncated to 0..3 octets                          (model checking)
           MaxSess         \* activations of the same two objects                           (model checking bound)
 
-VARIABLES cf,             \* configuration record (constant during a behaviour)
+VARIABLES cf,             \* session configuration: per-session state of the two objects, (re)assigned by activation
           i,              \* initiator
           t,              \* target
           slot,           \* frame on the air (NoFrame: nobody sends)
@@ -330,16 +340,40 @@ Release(kind) ==
     /\ slot' = ICur([i EXCEPT !.st = "rel", !.rel = kind], cf)
     /\ UNCHANGED <<sess, cf, t, pendI, pendT, nI, nT, viol, faults, stepFaults, last, now>>
 
+\* ---- what activation establishes.  Every attribute the two objects keep is per-session state: activate() must
+\* assign each of them from the parameters of this activation (options, ATR_REQ / ATR_RES / PSL_REQ on the air), also
+\* the optional ones that are ABSENT this time (no DID, no NAD, no general bytes): nothing of the previous session of
+\* the same object may survive.
+Attrs == {"lrI", "lrT", "did", "did0", "nad", "tdid", "sb", "R", "tR", "gbI", "gbT"}
+NoPrev == [some |-> FALSE, did |-> FALSE, did0 |-> FALSE, nad |-> FALSE, tdid |-> FALSE, gbI |-> 0, gbT |-> 0,
+           lrI |-> 0, lrT |-> 0, sb |-> FALSE]
+Opt(o) == [some |-> TRUE, did |-> o.did, did0 |-> o.did0, nad |-> o.nad, tdid |-> o.tdid, gbI |-> o.gbI, gbT |-> o.gbT,
+           lrI |-> o.lrI, lrT |-> o.lrT, sb |-> o.sb]
+\* c: the configuration a correct activation yields; o: what the objects hold from the previous session.
+\* Without "freshI" / "freshT" the optional attributes of that object are assigned only if present.
+Established(c, o, v) ==
+    LET d  == IF "freshI" \in v THEN c.did ELSE c.did \/ o.did
+        d0 == IF "freshI" \in v \/ c.did THEN c.did0 ELSE o.did0
+        n  == IF "freshI" \in v THEN c.nad ELSE c.nad \/ o.nad
+        gt == IF "freshI" \in v \/ c.gbT # 0 THEN c.gbT ELSE o.gbT
+        td == IF "freshT" \in v THEN c.tdid ELSE c.tdid \/ o.tdid
+        gi == IF "freshT" \in v \/ c.gbI # 0 THEN c.gbI ELSE o.gbI IN
+    [c EXCEPT !.did = d, !.did0 = d0, !.nad = n, !.gbT = gt, !.tdid = td, !.gbI = gi,
+              !.miuI = c.miuI + B(c.did) + B(c.nad) - B(d) - B(n),
+              !.miuT = c.miuT + B(c.tdid) - B(td),
+              !.prev = Opt(o)]
+
 \* Initiator.activate() / Target.activate() on the same two objects after the previous session ended (release,
-\* deselect or loss of the link): all per-session state starts afresh.  Variants: "ipni0" the initiator's PNI
+\* deselect or loss of the link), with the parameters of the new session (any configuration, not only the one of the
+\* previous session): all per-session state starts afresh.  Variants: "ipni0" the initiator's PNI
 \* is reset by activate() (as is: yes, dep.py Initiator.activate), "tpni0" the target's PNI is reset (as is: no,
 \* Target.pni is only set in __init__ and by the first exchange() *after* the duplicate test: C04 finding)
 Reactivate(c, v) ==
     /\ sess < MaxSess
     /\ i.st \in {"idle", "end"} /\ slot = NoFrame /\ t.st \in {"wait", "none"}
-    /\ cf' = c
+    /\ cf' = Established(c, cf, v)
     /\ i' = [I0 EXCEPT !.pni = IF "ipni0" \in v THEN 0 ELSE i.pni]
-    /\ t' = [T0(c) EXCEPT !.stale = t.pni]
+    /\ t' = [T0(Established(c, cf, v)) EXCEPT !.stale = t.pni]
     /\ slot' = NoFrame /\ pendI' = <<>> /\ pendT' = <<>>
     /\ stepFaults' = 0 /\ last' = "-" /\ now' = 0 /\ sess' = sess + 1
     /\ UNCHANGED <<nI, nT, viol, faults>>
@@ -355,7 +389,7 @@ Next ==
        \/ \E n \in Lens : TCall(n)
        \/ IRet
        \/ \E k \in {"RLS", "DSL"} : Release(k)
-       \/ Reactivate(cf, v)
+       \/ \E c \in Cfgs : Reactivate(c, v)
 
 Spec == Init /\ [][Next]_vars
 
@@ -392,6 +426,12 @@ FirstPniP(y, s, la) == /\ (y.ph = "first" /\ s.dir = "IT" /\ s.t = "INF" => s.pn
                        /\ ~(y.ph = "first" /\ la = "dup")
 FirstPni == FirstPniP(t, slot, last)
 
+\* after activation each object holds exactly what THIS activation established, whatever the previous session of
+\* the same object was like (optional attributes present before and absent now, or the other way round)
+SessAttrBad(c) == {a \in Attrs : c[a] # c.e[a]}
+SessAttrP(c) == SessAttrBad(c) = {}
+SessAttr == SessAttrP(cf)
+
 PniInSyncP(x, y) == (x.st = "idle" /\ y.st = "wait" /\ y.ph # "first") => x.pni = (y.pni + 1) % 4
 PniInSync == PniInSyncP(i, t)
 
@@ -406,6 +446,18 @@ W_ErrTimeout == ~(i.st = "err" /\ i.err = "Timeout")
 W_ErrProto  == ~(i.st = "err" /\ i.err = "Protocol")
 W_Release   == ~(t.st = "none")
 W_Again     == ~(sess = 2 /\ i.st = "idle" /\ nI >= 2 /\ pendI = <<>> /\ t.stale = 0)   \* second session after PNI 0
+\* a session with chained payloads both ways, completed on the same two objects after a session in which ...
+ChainedAgain == sess = 2 /\ i.st = "ret" /\ Len(i.rx) > 1 /\ i.n > cf.miuI /\ viol = {}
+\* ... every optional attribute was present, now all are absent (DID, NAD, general bytes; smaller LR, other framing)
+W_OptDrop   == ~(ChainedAgain /\ cf.prev.tdid /\ cf.prev.nad /\ cf.prev.gbI # 0 /\ cf.prev.gbT # 0
+                              /\ ~cf.did /\ ~cf.tdid /\ ~cf.nad /\ cf.gbI = 0 /\ cf.gbT = 0
+                              /\ cf.lrI < cf.prev.lrI /\ cf.lrT < cf.prev.lrT /\ cf.sb # cf.prev.sb)
+\* ... none was present, now all are
+W_OptAdd    == ~(ChainedAgain /\ ~cf.prev.did /\ ~cf.prev.nad /\ cf.prev.gbI = 0 /\ cf.prev.gbT = 0
+                              /\ cf.tdid /\ cf.nad /\ cf.gbI # 0 /\ cf.gbT # 0
+                              /\ cf.lrI > cf.prev.lrI /\ cf.lrT > cf.prev.lrT /\ cf.sb # cf.prev.sb)
+\* ... one of them goes while another stays (NAD dropped, DID kept)
+W_OptMixed  == ~(ChainedAgain /\ cf.prev.tdid /\ cf.prev.nad /\ cf.tdid /\ ~cf.nad)
 W_CutAbsorbed == ~(last = "nak" /\ faults = 1 /\ stepFaults = 1 /\ WithTrunc /\ i.st = "busy")
 W_CutFatal  == ~(t.st = "err" /\ t.cause = "trunc")
 W_Absorbed  == ~(i.st = "idle" /\ faults >= 2 /\ nI >= 2 /\ pendI = <<>> /\ pendT = <<>>)
